@@ -185,12 +185,21 @@ def _maxpool(module, grad_input, grad_output):
 		# gradient of the pooling operation itself. Unlike max_unpool, this
 		# accumulates when overlapping windows share an arg-max and handles
 		# dilation and ceil_mode.
+		# The multipliers arriving for the example half are the ones that 
+		# belong to this example-reference pair. Those arriving for the 
+		# reference half can differ from them (a later max-pooling layer falls
+		# back to its ordinary gradient where example and reference coincide,
+		# which selects different positions in the two halves), so use the
+		# example half for both terms.
+		grad_output_ = torch.chunk(grad_output[0], 2)[0]
+		grad_output_ = torch.cat([grad_output_, grad_output_])
+
 		with torch.enable_grad():
 			input_ = module.input.detach().requires_grad_()
 			output_ = pool_func(input_, module.kernel_size, module.stride, 
 				module.padding, module.dilation, module.ceil_mode)
 			unpool_ = torch.autograd.grad(output_, input_, 
-				grad_outputs=grad_output[0] * delta_out)[0]
+				grad_outputs=grad_output_ * delta_out)[0]
 
 		unpool_delta, unpool_ref_delta = torch.chunk(unpool_, 2)
 
